@@ -1,19 +1,26 @@
 #!/usr/bin/env python3
-"""Translator: selected pure functions of the crate, Rust source -> Lean definitions (Generated/SrcFns.lean).
+"""Translator: the pure integer functions of the crate, Rust source -> Lean definitions (Generated/SrcFns.lean).
 
-The arithmetic core of the address types (C03-C07) is small, loop-free integer code. This module parses the listed
-functions with a recursive-descent parser for the Rust subset they use and emits one Lean definition per function
-over the fixed-width semantics of `X86Model/Base/Rust.lean` (u64/u16/u8 = `BitVec`, wrapping shifts, arithmetic `>>`
-on `i64`, `checked_add/sub`, profile-dependent `+ - *`, `bit_field::{get_bits,set_bits}`, panics = `R.panic`).
-The hand-written models are then *proved equal* to these definitions (`Properties/SrcTie.lean`): for these
-functions the tie between model and source is a theorem re-checked on every run, not a sample.
+The arithmetic core of the address, page, frame, page-table-entry and selector types is small, loop-free integer
+code. This module parses the functions listed in TARGETS with a recursive-descent parser for the Rust subset they
+use and emits one Lean definition per function over the fixed-width semantics of `X86Model/Base/Rust.lean`
+(integers = `BitVec`, wrapping shifts, arithmetic `>>` on `i64`, `checked_*`, profile-dependent `+ - *`,
+`bit_field::{get_bits,set_bits}`, `bitflags` set operations, panics = `R.panic`). The hand-written models are then
+*proved equal* to these definitions (`Properties/SrcTie.lean`): for these functions the tie between model and
+source is a theorem re-checked on every run, for all inputs, not a sample.
 
-Subset: `let [mut] x = e;`, `x op= e;`, `x.set_bits(a.., v);`, `assert!(c, ..)`, `if c {..} [else {..}]`,
-`if let Some(x) = e {..} else {..}`, `match e { pat => .. }` (integer literals, `_`, `Ok(v)/Err(_)/Some(v)/None`),
-`return e;`, `e?` (in `let` initialisers), `panic!(..)`, `unsafe {..}`, literals, paths, `.0`, casts, unary `!`,
-binary `& | ^ << >> + - * % == != < <= > >=`, and calls of other listed functions. Anything else raises
-(reported as a broken tie by run.py) - a rewrite outside the subset needs the translator extended, it is never
-silently skipped.
+What is erased: single-field structs and tuple structs are their field (`VirtAddr`, `Page<S>`, `PageTableEntry`,
+`PageTableFlags`, ...); multi-field structs are tuples of their fields; a type parameter `S: PageSize` is the extra
+first argument `S_SIZE` (= `S::SIZE`); `&`, `&mut`, `*`, `unsafe`, `.into()`, `.clone()`, `as_u64()` on an erased
+newtype are the identity; a `&mut self` method returns `(result, self')`.
+
+Subset: `let [mut] x [: T] = e;`, `x = e;`, `x op= e;`, `x.set_bits(a..b, v);`, `assert!(c, ..)`, `if`/`else`,
+`if let Some(x) = e`, `match` on integers / `Option` / `Result` / unit enums, `return e;`, `e?`, `panic!(..)`,
+literals, paths, tuples, struct literals, field access, casts, unary `!`, binary `& | ^ << >> + - * / % == != < <= > >=
+&& ||`, calls of other listed functions (incl. operator traits), `checked_add/sub/mul`, `is_power_of_two`,
+`get_bits`, `unwrap`, `ok`, `unwrap_or`, `try_from` between 64-bit integers, `from_bits_truncate`, `contains`,
+`bits`, `union`/`|` on flags. Anything else raises (reported by run.py as a broken tie) - a rewrite outside the
+subset needs the translator extended, it is never silently skipped.
 """
 import os
 import re
@@ -21,38 +28,178 @@ import sys
 
 sys.path.insert(0, os.path.dirname(os.path.abspath(__file__)))
 from extract import write_if_changed  # noqa: E402
+import gen_consts  # noqa: E402
 
-# (file, impl type or None, fn name)
+ADDR = "src/addr.rs"
+PAGE = "src/structures/paging/page.rs"
+FRAME = "src/structures/paging/frame.rs"
+PT = "src/structures/paging/page_table.rs"
+
+# Erased newtypes: nominal type -> underlying integer type.
+NEWTYPES = {
+    "VirtAddr": "u64", "PhysAddr": "u64", "PageTableIndex": "u16", "PageOffset": "u16", "PageTableLevel": "u8",
+    "Page": "u64", "PhysFrame": "u64", "PageTableEntry": "u64", "PageTableFlags": "u64",
+}
+# Field names of the erased single-field structs (reading the field is the identity).
+NEWTYPE_FIELDS = {"Page": "start_address", "PhysFrame": "start_address", "PageTableEntry": "entry"}
+IGNORED_FIELDS = {"size"}   # PhantomData
+# Multi-field structs: name -> [(field, type name)]
+STRUCTS = {
+    "PageRange": [("start", "Page"), ("end", "Page")],
+    "PageRangeInclusive": [("start", "Page"), ("end", "Page")],
+    "PhysFrameRange": [("start", "PhysFrame"), ("end", "PhysFrame")],
+    "PhysFrameRangeInclusive": [("start", "PhysFrame"), ("end", "PhysFrame")],
+}
+GENERIC_OWNERS = {"Page", "PhysFrame", "PageRange", "PageRangeInclusive", "PhysFrameRange", "PhysFrameRangeInclusive"}
+FLAG_TYPES = {"PageTableFlags"}
+ENUMS = {"PageTableLevel"}
+WIDTH = {"u64": 64, "i64": 64, "usize": 64, "u32": 32, "i32": 32, "u16": 16, "u8": 8}
+
+
+class T:
+    """Target: one function. `impl` is the exact impl header (whitespace-normalised, without `impl` and `{`);
+    `owner` the nominal type whose method it is; `key` the name used for dispatch (method name, or operator name +
+    right-hand type for operator traits); `size` fixes `S::SIZE` for impls on a concrete page size."""
+
+    def __init__(self, file, impl, fn, owner=None, key=None, lean=None, size=None, call_size=None):
+        self.file, self.impl, self.fn, self.owner = file, impl, fn, owner
+        self.key = key or fn
+        self.lean = lean or ((owner + "_" if owner else "") + self.key)
+        self.size, self.call_size = size, call_size
+        self.generic = impl is not None and impl.startswith("<S:")
+
+
+GS = "<S: PageSize> "
 TARGETS = [
-    ("src/addr.rs", None, "align_down"),
-    ("src/addr.rs", None, "align_up"),
-    ("src/addr.rs", "VirtAddr", "new_truncate"),
-    ("src/addr.rs", "VirtAddr", "try_new"),
-    ("src/addr.rs", "VirtAddr", "new"),
-    ("src/addr.rs", "VirtAddr", "align_down_u64"),
-    ("src/addr.rs", "VirtAddr", "is_aligned_u64"),
-    ("src/addr.rs", "VirtAddr", "page_offset"),
-    ("src/addr.rs", "VirtAddr", "p1_index"),
-    ("src/addr.rs", "VirtAddr", "p2_index"),
-    ("src/addr.rs", "VirtAddr", "p3_index"),
-    ("src/addr.rs", "VirtAddr", "p4_index"),
-    ("src/addr.rs", "VirtAddr", "page_table_index"),
-    ("src/addr.rs", "VirtAddr", "steps_between_u64"),
-    ("src/addr.rs", "VirtAddr", "forward_checked_u64"),
-    ("src/addr.rs", "VirtAddr", "backward_checked_u64"),
-    ("src/addr.rs", "PhysAddr", "new_truncate"),
-    ("src/addr.rs", "PhysAddr", "try_new"),
-    ("src/addr.rs", "PhysAddr", "new"),
-    ("src/structures/paging/page_table.rs", "PageTableIndex", "new"),
-    ("src/structures/paging/page_table.rs", "PageTableIndex", "new_truncate"),
-    ("src/structures/paging/page_table.rs", "PageOffset", "new"),
-    ("src/structures/paging/page_table.rs", "PageOffset", "new_truncate"),
+    T(ADDR, None, "align_down"),
+    T(ADDR, None, "align_up"),
+    T(ADDR, "VirtAddr", "new_truncate", "VirtAddr"),
+    T(ADDR, "VirtAddr", "try_new", "VirtAddr"),
+    T(ADDR, "VirtAddr", "new", "VirtAddr"),
+    T(ADDR, "VirtAddr", "zero", "VirtAddr"),
+    T(ADDR, "VirtAddr", "as_u64", "VirtAddr"),
+    T(ADDR, "VirtAddr", "is_null", "VirtAddr"),
+    T(ADDR, "VirtAddr", "align_up", "VirtAddr"),
+    T(ADDR, "VirtAddr", "align_down", "VirtAddr"),
+    T(ADDR, "VirtAddr", "is_aligned", "VirtAddr"),
+    T(ADDR, "VirtAddr", "align_down_u64", "VirtAddr"),
+    T(ADDR, "VirtAddr", "is_aligned_u64", "VirtAddr"),
+    T(ADDR, "VirtAddr", "page_offset", "VirtAddr"),
+    T(ADDR, "VirtAddr", "p1_index", "VirtAddr"),
+    T(ADDR, "VirtAddr", "p2_index", "VirtAddr"),
+    T(ADDR, "VirtAddr", "p3_index", "VirtAddr"),
+    T(ADDR, "VirtAddr", "p4_index", "VirtAddr"),
+    T(ADDR, "VirtAddr", "page_table_index", "VirtAddr"),
+    T(ADDR, "VirtAddr", "steps_between_u64", "VirtAddr"),
+    T(ADDR, "VirtAddr", "steps_between_impl", "VirtAddr"),
+    T(ADDR, "VirtAddr", "forward_checked_u64", "VirtAddr"),
+    T(ADDR, "VirtAddr", "forward_checked_impl", "VirtAddr"),
+    T(ADDR, "VirtAddr", "backward_checked_u64", "VirtAddr"),
+    T(ADDR, "Add<u64> for VirtAddr", "add", "VirtAddr", "add_u64"),
+    T(ADDR, "AddAssign<u64> for VirtAddr", "add_assign", "VirtAddr", "add_assign_u64"),
+    T(ADDR, "Sub<u64> for VirtAddr", "sub", "VirtAddr", "sub_u64"),
+    T(ADDR, "SubAssign<u64> for VirtAddr", "sub_assign", "VirtAddr", "sub_assign_u64"),
+    T(ADDR, "Sub<VirtAddr> for VirtAddr", "sub", "VirtAddr", "sub_VirtAddr"),
+    T(ADDR, "Step for VirtAddr", "steps_between", "VirtAddr", "Step_steps_between"),
+    T(ADDR, "Step for VirtAddr", "forward_checked", "VirtAddr", "Step_forward_checked"),
+    T(ADDR, "Step for VirtAddr", "backward_checked", "VirtAddr", "Step_backward_checked"),
+    T(ADDR, "PhysAddr", "new_truncate", "PhysAddr"),
+    T(ADDR, "PhysAddr", "try_new", "PhysAddr"),
+    T(ADDR, "PhysAddr", "new", "PhysAddr"),
+    T(ADDR, "PhysAddr", "zero", "PhysAddr"),
+    T(ADDR, "PhysAddr", "as_u64", "PhysAddr"),
+    T(ADDR, "PhysAddr", "is_null", "PhysAddr"),
+    T(ADDR, "PhysAddr", "align_up", "PhysAddr"),
+    T(ADDR, "PhysAddr", "align_down", "PhysAddr"),
+    T(ADDR, "PhysAddr", "is_aligned", "PhysAddr"),
+    T(ADDR, "PhysAddr", "align_down_u64", "PhysAddr"),
+    T(ADDR, "PhysAddr", "is_aligned_u64", "PhysAddr"),
+    T(ADDR, "Add<u64> for PhysAddr", "add", "PhysAddr", "add_u64"),
+    T(ADDR, "AddAssign<u64> for PhysAddr", "add_assign", "PhysAddr", "add_assign_u64"),
+    T(ADDR, "Sub<u64> for PhysAddr", "sub", "PhysAddr", "sub_u64"),
+    T(ADDR, "SubAssign<u64> for PhysAddr", "sub_assign", "PhysAddr", "sub_assign_u64"),
+    T(ADDR, "Sub<PhysAddr> for PhysAddr", "sub", "PhysAddr", "sub_PhysAddr"),
+    # page_table.rs: index / offset / level / entry
+    T(PT, "PageTableIndex", "new", "PageTableIndex"),
+    T(PT, "PageTableIndex", "new_truncate", "PageTableIndex"),
+    T(PT, "PageTableIndex", "into_u64", "PageTableIndex"),
+    T(PT, "Step for PageTableIndex", "steps_between", "PageTableIndex", "Step_steps_between"),
+    T(PT, "Step for PageTableIndex", "forward_checked", "PageTableIndex", "Step_forward_checked"),
+    T(PT, "Step for PageTableIndex", "backward_checked", "PageTableIndex", "Step_backward_checked"),
+    T(PT, "PageOffset", "new", "PageOffset"),
+    T(PT, "PageOffset", "new_truncate", "PageOffset"),
+    T(PT, "PageTableLevel", "next_lower_level", "PageTableLevel"),
+    T(PT, "PageTableLevel", "next_higher_level", "PageTableLevel"),
+    T(PT, "PageTableLevel", "table_address_space_alignment", "PageTableLevel"),
+    T(PT, "PageTableLevel", "entry_address_space_alignment", "PageTableLevel"),
+    T(PT, "PageTableEntry", "new", "PageTableEntry"),
+    T(PT, "PageTableEntry", "is_unused", "PageTableEntry"),
+    T(PT, "PageTableEntry", "set_unused", "PageTableEntry"),
+    T(PT, "PageTableEntry", "flags", "PageTableEntry"),
+    T(PT, "PageTableEntry", "addr", "PageTableEntry"),
+    T(PT, "PageTableEntry", "frame", "PageTableEntry", call_size="Size4KiB"),
+    T(PT, "PageTableEntry", "set_addr", "PageTableEntry"),
+    T(PT, "PageTableEntry", "set_frame", "PageTableEntry", call_size="Size4KiB"),
+    T(PT, "PageTableEntry", "set_flags", "PageTableEntry"),
+    # page.rs
+    T(PAGE, GS + "Page<S>", "from_start_address", "Page"),
+    T(PAGE, GS + "Page<S>", "from_start_address_unchecked", "Page"),
+    T(PAGE, GS + "Page<S>", "containing_address", "Page"),
+    T(PAGE, GS + "Page<S>", "start_address", "Page"),
+    T(PAGE, GS + "Page<S>", "size", "Page"),
+    T(PAGE, GS + "Page<S>", "p4_index", "Page"),
+    T(PAGE, GS + "Page<S>", "p3_index", "Page"),
+    T(PAGE, GS + "Page<S>", "page_table_index", "Page"),
+    T(PAGE, GS + "Page<S>", "range", "Page"),
+    T(PAGE, GS + "Page<S>", "range_inclusive", "Page"),
+    T(PAGE, GS + "Page<S>", "steps_between_impl", "Page"),
+    T(PAGE, GS + "Page<S>", "forward_checked_impl", "Page"),
+    T(PAGE, "<S: NotGiantPageSize> Page<S>", "p2_index", "Page"),
+    T(PAGE, "Page<Size1GiB>", "from_page_table_indices_1gib", "Page", size="Size1GiB"),
+    T(PAGE, "Page<Size2MiB>", "from_page_table_indices_2mib", "Page", size="Size2MiB"),
+    T(PAGE, "Page<Size4KiB>", "from_page_table_indices", "Page", size="Size4KiB"),
+    T(PAGE, "Page<Size4KiB>", "p1_index", "Page", size="Size4KiB"),
+    T(PAGE, GS + "Add<u64> for Page<S>", "add", "Page", "add_u64"),
+    T(PAGE, GS + "AddAssign<u64> for Page<S>", "add_assign", "Page", "add_assign_u64"),
+    T(PAGE, GS + "Sub<u64> for Page<S>", "sub", "Page", "sub_u64"),
+    T(PAGE, GS + "SubAssign<u64> for Page<S>", "sub_assign", "Page", "sub_assign_u64"),
+    T(PAGE, GS + "Sub<Self> for Page<S>", "sub", "Page", "sub_Page"),
+    T(PAGE, GS + "Step for Page<S>", "steps_between", "Page", "Step_steps_between"),
+    T(PAGE, GS + "Step for Page<S>", "forward_checked", "Page", "Step_forward_checked"),
+    T(PAGE, GS + "Step for Page<S>", "backward_checked", "Page", "Step_backward_checked"),
+    T(PAGE, GS + "PageRange<S>", "is_empty", "PageRange"),
+    T(PAGE, GS + "PageRange<S>", "len", "PageRange"),
+    T(PAGE, GS + "PageRange<S>", "size", "PageRange"),
+    T(PAGE, GS + "Iterator for PageRange<S>", "next", "PageRange"),
+    T(PAGE, "PageRange<Size2MiB>", "as_4kib_page_range", "PageRange", size="Size2MiB", call_size="Size4KiB"),
+    T(PAGE, GS + "PageRangeInclusive<S>", "is_empty", "PageRangeInclusive"),
+    T(PAGE, GS + "PageRangeInclusive<S>", "len", "PageRangeInclusive"),
+    T(PAGE, GS + "PageRangeInclusive<S>", "size", "PageRangeInclusive"),
+    T(PAGE, GS + "Iterator for PageRangeInclusive<S>", "next", "PageRangeInclusive"),
+    # frame.rs
+    T(FRAME, GS + "PhysFrame<S>", "from_start_address", "PhysFrame"),
+    T(FRAME, GS + "PhysFrame<S>", "from_start_address_unchecked", "PhysFrame"),
+    T(FRAME, GS + "PhysFrame<S>", "containing_address", "PhysFrame"),
+    T(FRAME, GS + "PhysFrame<S>", "start_address", "PhysFrame"),
+    T(FRAME, GS + "PhysFrame<S>", "size", "PhysFrame"),
+    T(FRAME, GS + "PhysFrame<S>", "range", "PhysFrame"),
+    T(FRAME, GS + "PhysFrame<S>", "range_inclusive", "PhysFrame"),
+    T(FRAME, GS + "Add<u64> for PhysFrame<S>", "add", "PhysFrame", "add_u64"),
+    T(FRAME, GS + "AddAssign<u64> for PhysFrame<S>", "add_assign", "PhysFrame", "add_assign_u64"),
+    T(FRAME, GS + "Sub<u64> for PhysFrame<S>", "sub", "PhysFrame", "sub_u64"),
+    T(FRAME, GS + "SubAssign<u64> for PhysFrame<S>", "sub_assign", "PhysFrame", "sub_assign_u64"),
+    T(FRAME, GS + "Sub<PhysFrame<S>> for PhysFrame<S>", "sub", "PhysFrame", "sub_PhysFrame"),
+    T(FRAME, GS + "PhysFrameRange<S>", "is_empty", "PhysFrameRange"),
+    T(FRAME, GS + "PhysFrameRange<S>", "len", "PhysFrameRange"),
+    T(FRAME, GS + "PhysFrameRange<S>", "size", "PhysFrameRange"),
+    T(FRAME, GS + "Iterator for PhysFrameRange<S>", "next", "PhysFrameRange"),
+    T(FRAME, GS + "PhysFrameRangeInclusive<S>", "is_empty", "PhysFrameRangeInclusive"),
+    T(FRAME, GS + "PhysFrameRangeInclusive<S>", "len", "PhysFrameRangeInclusive"),
+    T(FRAME, GS + "PhysFrameRangeInclusive<S>", "size", "PhysFrameRangeInclusive"),
+    T(FRAME, GS + "Iterator for PhysFrameRangeInclusive<S>", "next", "PhysFrameRangeInclusive"),
 ]
 
-NEWTYPES = {"VirtAddr": "u64", "PhysAddr": "u64", "PageTableIndex": "u16", "PageOffset": "u16", "PageTableLevel": "u8"}
-WIDTH = {"u64": 64, "i64": 64, "usize": 64, "u32": 32, "u16": 16, "u8": 8}
-
-TOK = re.compile(r"""\s*(?:(//[^\n]*|/\*.*?\*/)|(0x[0-9a-fA-F_]+|0b[01_]+|[0-9][0-9_]*)(?:_?([ui](?:8|16|32|64|size)))?|([A-Za-z_][A-Za-z0-9_]*!?)|("(?:[^"\\]|\\.)*")|(\.\.=|\.\.|::|->|=>|==|!=|<=|>=|<<=|>>=|<<|>>|&&|\|\||[+\-*/%&|^]=|[{}()\[\];,.:?!&|^+\-*/%<>=#'@]))""", re.S)
+TOK = re.compile(r"""\s*(?:(//[^\n]*|/\*.*?\*/)|(0x[0-9a-fA-F_]+|0b[01_]+|0o[0-7_]+|[0-9][0-9_]*)(?:_?([ui](?:8|16|32|64|size)))?|([A-Za-z_][A-Za-z0-9_]*!?)|("(?:[^"\\]|\\.)*")|(\.\.=|\.\.|::|->|=>|==|!=|<=|>=|<<=|>>=|<<|>>|&&|\|\||[+\-*/%&|^]=|[{}()\[\];,.:?!&|^+\-*/%<>=#'@]))""", re.S)
 
 
 def tokenize(src):
@@ -75,6 +222,9 @@ def tokenize(src):
         else:
             toks.append(("op", m.group(6)))
     return toks
+
+
+ASSIGN_OPS = ("=", "&=", "|=", "^=", "+=", "-=", "*=", "<<=", ">>=")
 
 
 class P:
@@ -109,7 +259,18 @@ class P:
     def ty(self):
         if self.at("&"):
             self.i += 1
+            if self.at_id("mut"):
+                self.i += 1
             return self.ty()
+        if self.at("("):
+            self.i += 1
+            items = []
+            while not self.at(")"):
+                items.append(self.ty())
+                if self.at(","):
+                    self.i += 1
+            self.eat(")")
+            return ("()", items)
         name = self.eat_id()
         while self.at("::"):
             self.i += 1
@@ -129,31 +290,52 @@ class P:
         self.eat("{")
         stmts = []
         while not self.at("}"):
-            stmts.append(self.stmt())
+            s = self.stmt()
+            if s is not None:
+                stmts.append(s)
         self.eat("}")
         return stmts
 
+    def skip_attr(self):
+        self.eat("#")
+        self.eat("[")
+        depth = 1
+        while depth:
+            if self.at("["):
+                depth += 1
+            elif self.at("]"):
+                depth -= 1
+            self.i += 1
+
     def stmt(self):
+        if self.at("#"):
+            self.skip_attr()
+            return None
+        if self.at_id("use"):
+            while not self.at(";"):
+                self.i += 1
+            self.i += 1
+            return None
         if self.at_id("let"):
             self.i += 1
-            mut = False
             if self.at_id("mut"):
                 self.i += 1
-                mut = True
             name = self.eat_id()
+            ty = None
             if self.at(":"):
                 self.i += 1
-                self.ty()
+                ty = self.ty()
             self.eat("=")
             e = self.expr()
             self.eat(";")
-            return ("let", name, e)
+            return ("let", name, e, ty)
         if self.at_id("return"):
             self.i += 1
             e = self.expr()
             self.eat(";")
             return ("return", e)
-        if self.at_id("assert!"):
+        if self.at_id("assert!") or self.at_id("debug_assert!"):
+            dbg = self.peek()[1] == "debug_assert!"
             self.i += 1
             self.eat("(")
             c = self.expr()
@@ -165,18 +347,24 @@ class P:
                     self.expr()
             self.eat(")")
             self.eat(";")
-            return ("assert", c)
+            return ("assert", c, dbg)
+        return self.expr_stmt(in_block=True)
+
+    def expr_stmt(self, in_block):
+        """expression, assignment or compound assignment; inside a block also decides `;` / tail."""
         e = self.expr()
-        for op in ("&=", "|=", "^=", "+=", "-=", "<<=", ">>="):
+        for op in ASSIGN_OPS:
             if self.at(op):
                 self.i += 1
                 rhs = self.expr()
-                self.eat(";")
-                return ("opassign", e, op[:-1], rhs)
+                if in_block:
+                    self.eat(";")
+                return ("assign", e, op[:-1], rhs)
+        if not in_block:
+            return ("tail", e)
         if self.at(";"):
             self.i += 1
             return ("expr;", e)
-        # tail expression, or a block-like expression statement without `;`
         if e[0] in ("if", "iflet", "match") and not self.at("}"):
             return ("expr;", e)
         return ("tail", e)
@@ -190,7 +378,6 @@ class P:
         lhs = self.expr(lvl + 1, nostruct)
         while self.at(*self.PREC[lvl]):
             op = self.peek()[1]
-            # `<` after a path could open generics; not in this subset
             self.i += 1
             rhs = self.expr(lvl + 1, nostruct)
             lhs = ("bin", op, lhs, rhs)
@@ -236,7 +423,7 @@ class P:
                     if self.at("("):
                         e = ("mcall", e, name, self.args())
                     else:
-                        e = ("fieldn", e, name)
+                        e = ("field", e, name)
             else:
                 return e
 
@@ -263,13 +450,38 @@ class P:
                     self.i += 1
                 return ("range", p[1], hi)
             return ("num", p[1], p[2])
+        if self.at(".."):      # `..47`
+            self.i += 1
+            hi = self.peek()[1]
+            self.i += 1
+            return ("range", 0, hi)
+        if self.at("..="):
+            self.i += 1
+            hi = self.peek()[1] + 1
+            self.i += 1
+            return ("range", 0, hi)
         if self.at("("):
             self.i += 1
+            if self.at(")"):
+                self.i += 1
+                return ("tuple", [])
             e = self.expr()
+            if self.at(","):
+                items = [e]
+                while self.at(","):
+                    self.i += 1
+                    if self.at(")"):
+                        break
+                    items.append(self.expr())
+                self.eat(")")
+                return ("tuple", items)
             self.eat(")")
             return ("paren", e)
         if self.at("{"):
             return ("block", self.block())
+        if self.at("||"):          # closure without parameters
+            self.i += 1
+            return ("closure0", self.expr())
         if p[0] == "id":
             name = p[1]
             if name == "unsafe":
@@ -304,13 +516,13 @@ class P:
                     if self.at("{"):
                         body = self.block()
                     else:
-                        body = [("tail", self.expr())]
+                        body = [self.expr_stmt(in_block=False)]
                     if self.at(","):
                         self.i += 1
                     arms.append((pat, body))
                 self.eat("}")
                 return ("match", scrut, arms)
-            if name == "panic!":
+            if name in ("panic!", "unreachable!", "unimplemented!", "todo!"):
                 self.i += 1
                 self.eat("(")
                 depth = 1
@@ -321,14 +533,39 @@ class P:
                         depth -= 1
                     self.i += 1
                 return ("panic",)
-            # path
+            # path (generic arguments in a path, `Page::<S>::f`, are skipped)
             self.i += 1
             path = [name]
             while self.at("::"):
                 self.i += 1
+                if self.at("<"):
+                    depth = 0
+                    while True:
+                        if self.at("<"):
+                            depth += 1
+                        elif self.at(">"):
+                            depth -= 1
+                        self.i += 1
+                        if depth == 0:
+                            break
+                    continue
                 path.append(self.eat_id())
             if self.at("("):
                 return ("call", path, self.args())
+            if self.at("{") and not nostruct and path[-1][0].isupper():
+                self.i += 1
+                fields = []
+                while not self.at("}"):
+                    fname = self.eat_id()
+                    if self.at(":"):
+                        self.i += 1
+                        fields.append((fname, self.expr()))
+                    else:
+                        fields.append((fname, ("path", [fname])))
+                    if self.at(","):
+                        self.i += 1
+                self.eat("}")
+                return ("struct", path, fields)
             return ("path", path)
         raise ValueError(f"unexpected token {p!r}")
 
@@ -338,30 +575,68 @@ class P:
             self.i += 1
             return ("plit", p[1])
         name = self.eat_id()
-        if name == "_":
+        path = [name]
+        while self.at("::"):
+            self.i += 1
+            path.append(self.eat_id())
+        if path == ["_"]:
             return ("pwild",)
         if self.at("("):
             self.i += 1
             inner = self.eat_id()
             self.eat(")")
-            return ("pctor", name, inner)
+            return ("pctor", path[-1], inner)
+        if len(path) > 1:
+            return ("ppath", path)
         return ("pctor", name, None)
 
 
 # --------------------------------------------------------------------------- locating functions
 
+def norm_ws(s):
+    return re.sub(r"\s+", " ", s.strip())
+
+
+def find_impl_bodies(src, impl):
+    """Yield (start, end) of the bodies of every `impl <impl> {` block (cfg-gated duplicates included)."""
+    out = []
+    for m in re.finditer(r"^impl\b([^{;]*)\{", src, re.M):
+        head = norm_ws(m.group(1))
+        head = re.split(r"\bwhere\b", head)[0].strip()
+        if head != impl:
+            continue
+        depth, e = 0, m.end() - 1
+        while True:
+            if src[e] == "{":
+                depth += 1
+            elif src[e] == "}":
+                depth -= 1
+                if depth == 0:
+                    break
+            e += 1
+        out.append((m.end(), e))
+    return out
+
+
+def strip_comments(src):
+    return re.sub(r"//[^\n]*", lambda m: " " * len(m.group(0)), src)
+
+
 def find_fn(src, impl, name):
     """Return (params text, return type text, body text) of `fn name` inside `impl <impl> {` (or at top level)."""
-    start = 0
-    if impl is not None:
-        m = re.search(r"^impl\s+" + re.escape(impl) + r"\s*\{", src, re.M)
-        if not m:
-            raise ValueError(f"impl {impl} not found")
-        start = m.end()
+    src = strip_comments(src)
+    m = None
     if impl is None:
         m = re.search(r"^pub(?:\([a-z]+\))?\s+(?:const\s+)?(?:unsafe\s+)?fn\s+" + re.escape(name) + r"\s*(?:<[^>]*>)?\s*\(", src, re.M)
     else:
-        m = re.compile(r"\bfn\s+" + re.escape(name) + r"\s*(?:<[^>]*>)?\s*\(").search(src, start)
+        bodies = find_impl_bodies(src, impl)
+        if not bodies:
+            raise ValueError(f"impl {impl} not found")
+        rx = re.compile(r"\bfn\s+" + re.escape(name) + r"\s*(?:<[^>]*>)?\s*\(")
+        for (s, e) in bodies:
+            m = rx.search(src, s, e)
+            if m:
+                break
     if not m:
         raise ValueError(f"fn {name} not found in impl {impl}")
     i = m.end() - 1
@@ -391,14 +666,21 @@ def find_fn(src, impl, name):
     return params, ret, src[k:e + 1]
 
 
-# --------------------------------------------------------------------------- typing + emission
+# --------------------------------------------------------------------------- types
 
 class Ty:
-    def __init__(self, kind, arg=None):
-        self.kind, self.arg = kind, arg   # kind: u64 i64 u16 u8 usize u32 bool | option | result | unit | never
+    def __init__(self, kind, arg=None, nom=None):
+        # kind: integer type name | bool | option | result | tuple | unit | never
+        self.kind, self.arg, self.nom = kind, arg, nom
 
     def __repr__(self):
-        return self.kind + (f"<{self.arg}>" if self.arg else "")
+        return (self.nom + ":" if self.nom else "") + self.kind + (f"<{self.arg}>" if self.arg else "")
+
+    def is_int(self):
+        return self.kind in WIDTH
+
+    def width(self):
+        return WIDTH[self.kind]
 
     def lean(self):
         if self.kind in WIDTH:
@@ -411,47 +693,216 @@ class Ty:
             return f"Except Unit ({self.arg.lean()})"
         if self.kind == "unit":
             return "Unit"
+        if self.kind == "tuple":
+            return "(" + " × ".join(t.lean() for t in self.arg) + ")"
         raise ValueError(f"no Lean type for {self}")
 
-    def __eq__(self, o):
-        return isinstance(o, Ty) and self.kind == o.kind and self.arg == o.arg
+    def same(self, o):
+        """Structural equality of the erased types (nominal tags are for dispatch only)."""
+        if self.kind != o.kind:
+            return False
+        if self.kind in ("option", "result"):
+            return self.arg.same(o.arg)
+        if self.kind == "tuple":
+            return len(self.arg) == len(o.arg) and all(a.same(b) for a, b in zip(self.arg, o.arg))
+        return True
 
 
-def conv_ty(t, selfty=None):
-    name, args = t
-    if name == "Self":
-        name = selfty
+def nominal(name):
     if name in NEWTYPES:
-        return Ty(NEWTYPES[name])
-    if name in WIDTH or name == "bool":
-        return Ty(name)
-    if name == "Option":
-        return Ty("option", conv_ty(args[0], selfty))
-    if name == "Result":
-        return Ty("result", conv_ty(args[0], selfty))
+        return Ty(NEWTYPES[name], nom=name)
+    if name in STRUCTS:
+        return Ty("tuple", [nominal(t) for _, t in STRUCTS[name]], nom=name)
     raise ValueError(f"type {name} not in the subset")
 
 
-def lname(impl, fn):
-    return (impl + "_" if impl else "") + fn
+def conv_ty(t, selfty=None, assoc=None):
+    name, args = t
+    if name == "()":
+        if not args:
+            return Ty("unit")
+        return Ty("tuple", [conv_ty(a, selfty, assoc) for a in args])
+    if name == "Self":
+        name = selfty
+    if assoc and name in assoc:        # `Self::Output`, `Self::Item`
+        return assoc[name]
+    if name in NEWTYPES or name in STRUCTS:
+        return nominal(name)
+    if name in WIDTH or name == "bool":
+        return Ty(name)
+    if name == "U":          # `U: Into<u64>` of the alignment methods: instantiated at u64
+        return Ty("u64")
+    if name == "Option":
+        return Ty("option", conv_ty(args[0], selfty, assoc))
+    if name == "Result":
+        return Ty("result", conv_ty(args[0], selfty, assoc))
+    raise ValueError(f"type {name} not in the subset")
+
+
+def field_path(n, i):
+    """Projection of component i of an n-tuple `a × b × c` (right-nested pairs)."""
+    if n == 1:
+        return ""
+    s = ".2" * i
+    return s + (".1" if i < n - 1 else "")
+
+
+
+# --------------------------------------------------------------------------- `?` hoisting
+
+PURE_METHODS = {"start_address", "as_u64", "into", "clone", "bits", "ok", "into_u64", "size"}
+
+
+def children(e):
+    k = e[0]
+    if k in ("paren", "not", "try"):
+        return [e[1]]
+    if k == "cast":
+        return [e[1]]
+    if k == "field":
+        return [e[1]]
+    if k == "bin":
+        return [e[2], e[3]]
+    if k == "call":
+        return list(e[2])
+    if k == "mcall":
+        return [e[1]] + list(e[3])
+    if k == "tuple":
+        return list(e[1])
+    if k == "struct":
+        return [x for _, x in e[2]]
+    return []
+
+
+def rebuild(e, kids):
+    k = e[0]
+    if k in ("paren", "not", "try"):
+        return (k, kids[0])
+    if k == "cast":
+        return ("cast", kids[0], e[2])
+    if k == "field":
+        return ("field", kids[0], e[2])
+    if k == "bin":
+        return ("bin", e[1], kids[0], kids[1])
+    if k == "call":
+        return ("call", e[1], kids)
+    if k == "mcall":
+        return ("mcall", kids[0], e[2], kids[1:])
+    if k == "tuple":
+        return ("tuple", kids)
+    if k == "struct":
+        return ("struct", e[1], [(f, x) for (f, _), x in zip(e[2], kids)])
+    return e
+
+
+def has_try(e):
+    return e[0] == "try" or any(has_try(c) for c in children(e))
+
+
+def effectful(e):
+    """May this expression panic or otherwise matter for evaluation order?"""
+    k = e[0]
+    if k == "call" and e[1] not in (["Some"], ["Ok"]):
+        return True
+    if k == "mcall" and e[2] not in PURE_METHODS:
+        return True
+    if k == "bin" and e[1] in ("+", "-", "*", "/", "%", "<<", ">>"):
+        return True
+    if k in ("if", "iflet", "match", "block", "panic"):
+        return True
+    return any(effectful(c) for c in children(e))
+
+
+class Hoister:
+    def __init__(self):
+        self.n = 0
+
+    def expr(self, e, lets):
+        """Replace every `inner?` inside e (outside nested control flow) by a fresh variable bound in `lets`."""
+        if e[0] in ("if", "iflet", "match", "block"):
+            return e          # own statement lists are hoisted when they are translated
+        kids = children(e)
+        new = []
+        for i, c in enumerate(kids):
+            if has_try(c) and any(effectful(p) for p in new):
+                raise ValueError("`?` after an effectful sibling expression: evaluation order not preserved by hoisting")
+            new.append(self.expr(c, lets))
+        e = rebuild(e, new)
+        if e[0] == "try":
+            self.n += 1
+            name = f"try__{self.n}"
+            lets.append(("let", name, e, None))
+            return ("path", [name])
+        return e
+
+    def stmts(self, stmts):
+        out = []
+        for s in stmts:
+            k = s[0]
+            lets = []
+            if k == "let":
+                if s[2][0] == "try":
+                    inner = self.expr(s[2][1], lets)
+                    s = ("let", s[1], ("try", inner), s[3])
+                else:
+                    s = ("let", s[1], self.expr(s[2], lets), s[3])
+            elif k in ("return", "tail", "expr;"):
+                s = (k, self.expr(s[1], lets))
+            elif k == "assign":
+                s = ("assign", s[1], s[2], self.expr(s[3], lets))
+            elif k == "assert":
+                s = ("assert", self.expr(s[1], lets), s[2])
+            out += lets + [s]
+        return out
+
+
+# --------------------------------------------------------------------------- emission
+
+class HoistedList(list):
+    hoisted = True
 
 
 class Emit:
     """Translate one function body to a Lean term of type `R <ret>`."""
 
-    def __init__(self, impl, sigs, consts):
-        self.impl, self.sigs, self.consts = impl, sigs, consts
+    def __init__(self, target, ctx):
+        self.tg, self.ctx = target, ctx
+        self.impl = target.owner
         self.n = 0
         self.deps = set()
+        self.mut_self = False
+        self.ret_ty = None       # declared return type (without the self component)
+        self.hoister = Hoister()
 
     def fresh(self, base="v"):
         self.n += 1
         return f"{base}_{self.n}"
 
     def lit(self, v, ty):
-        if ty.kind not in WIDTH:
+        if not ty.is_int():
             raise ValueError(f"integer literal of type {ty}")
-        return f"{hex(v)}#{WIDTH[ty.kind]}"
+        if v >= 2 ** ty.width():
+            raise ValueError(f"literal {v} does not fit {ty}")
+        return f"{hex(v)}#{ty.width()}"
+
+    # ---- S::SIZE
+    def size_term(self, which=None):
+        """Term for `S::SIZE` as seen from this function (`which` = a concrete size name overrides)."""
+        if which is not None:
+            return self.lit(self.ctx.sizes[which], Ty("u64"))
+        if self.tg.generic:
+            return "S_SIZE"
+        if self.tg.size is not None:
+            return self.lit(self.ctx.sizes[self.tg.size], Ty("u64"))
+        raise ValueError("S::SIZE outside a page-size context")
+
+    def callee_size(self, callee):
+        """Extra leading argument for a generic callee."""
+        if not callee.generic:
+            return []
+        if self.tg.call_size is not None:
+            return [self.size_term(self.tg.call_size)]
+        return [self.size_term()]
 
     # expression -> (kind, term, type): kind 'p' pure term of Lean type ty.lean(); 'm' term of type R (ty.lean())
     def ex(self, e, env, expect=None):
@@ -459,32 +910,58 @@ class Emit:
         if k == "paren":
             return self.ex(e[1], env, expect)
         if k == "num":
-            ty = Ty(e[2]) if e[2] else (expect if expect is not None and expect.kind in WIDTH else Ty("u64"))
+            if e[2]:
+                ty = Ty(e[2])
+            elif expect is not None and expect.is_int():
+                ty = Ty(expect.kind)
+            else:
+                ty = Ty("u64")
             return ("p", self.lit(e[1], ty), ty)
         if k == "path":
-            path = e[1]
-            if len(path) == 1 and path[0] in env:
-                return ("p", env[path[0]][0], env[path[0]][1])
-            if len(path) == 1 and path[0] == "None":
-                if expect is None or expect.kind != "option":
-                    raise ValueError("cannot type `None`")
-                return ("p", "none", expect)
-            if path[-1] in self.consts:
-                term, ty = self.consts[path[-1]]
-                return ("p", term, ty)
-            raise ValueError(f"unknown path {'::'.join(path)}")
+            return self.path(e[1], env, expect)
         if k == "field":
             kk, t, ty = self.ex(e[1], env)
-            return (kk, t, ty)          # `.0` of a newtype: identity
+            f = e[2]
+            if ty.nom in STRUCTS:
+                names = [n for n, _ in STRUCTS[ty.nom]]
+                if f not in names:
+                    raise ValueError(f"no field {f} in {ty.nom}")
+                i = names.index(f)
+                proj = field_path(len(names), i)
+                return self.lift1(kk, t, ty, lambda x: f"{x}{proj}", ty.arg[i])
+            if ty.nom in NEWTYPES and (f == 0 or f == NEWTYPE_FIELDS.get(ty.nom)):
+                inner = Ty(ty.kind)
+                if ty.nom == "Page":
+                    inner = nominal("VirtAddr")
+                elif ty.nom == "PhysFrame":
+                    inner = nominal("PhysAddr")
+                return (kk, t, inner)
+            if ty.kind == "tuple" and isinstance(f, int):
+                proj = field_path(len(ty.arg), f)
+                return self.lift1(kk, t, ty, lambda x: f"{x}{proj}", ty.arg[f])
+            raise ValueError(f"field {f} of {ty}")
+        if k == "tuple":
+            if not e[1]:
+                return ("p", "()", Ty("unit"))
+            exps = expect.arg if expect is not None and expect.kind == "tuple" else [None] * len(e[1])
+            parts = [self.ex(x, env, t) for x, t in zip(e[1], exps)]
+            return self.bind_all(parts, lambda xs: "(" + ", ".join(xs) + ")", Ty("tuple", [p[2] for p in parts]))
+        if k == "struct":
+            return self.struct_lit(e, env, expect)
         if k == "not":
             kk, t, ty = self.ex(e[1], env, expect)
-            return self.lift1(kk, t, ty, (lambda x: f"(!{x})") if ty.kind == "bool" else (lambda x: f"(~~~{x})"), ty)
+            if ty.kind == "bool":
+                return self.lift1(kk, t, ty, lambda x: f"(!{x})", ty)
+            if ty.nom in FLAG_TYPES:
+                allb = self.lit(self.ctx.flag_all[ty.nom], ty)
+                return self.lift1(kk, t, ty, lambda x: f"((~~~{x}) &&& {allb})", ty)
+            return self.lift1(kk, t, ty, lambda x: f"(~~~{x})", ty)
         if k == "cast":
             kk, t, ty = self.ex(e[1], env)
             to = conv_ty(e[2], self.impl)
-            if ty.kind not in WIDTH or to.kind not in WIDTH:
+            if not ty.is_int() or not to.is_int():
                 raise ValueError(f"cast {ty} as {to}")
-            w1, w2 = WIDTH[ty.kind], WIDTH[to.kind]
+            w1, w2 = ty.width(), to.width()
             if w1 == w2:
                 f = lambda x: x
             elif ty.kind.startswith("i") and w2 > w1:
@@ -498,18 +975,77 @@ class Emit:
             return self.call(e[1], e[2], env, expect)
         if k == "mcall":
             return self.mcall(e, env, expect)
+        if k == "try":
+            raise ValueError("`?` outside a `let` initialiser")
         if k == "block":
-            ty = expect
-            return ("m", self.block(e[1], dict(env), ty, None), ty)
+            if expect is None:
+                raise ValueError("block expression needs an expected type")
+            return ("m", self.block(e[1], dict(env), None, valty=expect), expect)
         if k in ("if", "iflet", "match"):
             if expect is None:
                 raise ValueError(f"`{k}` expression needs an expected type")
-            return ("m", self.block([("tail", e)], dict(env), expect, None), expect)
+            return ("m", self.block([("tail", e)], dict(env), None, valty=expect), expect)
         if k == "panic":
             if expect is None:
                 raise ValueError("`panic!` needs an expected type")
             return ("m", "R.panic", expect)
         raise ValueError(f"expression form {k} not in the subset")
+
+    def path(self, path, env, expect):
+        if len(path) == 1 and path[0] in env:
+            return ("p", env[path[0]][0], env[path[0]][1])
+        if path == ["None"]:
+            if expect is None or expect.kind != "option":
+                raise ValueError("cannot type `None`")
+            return ("p", "none", expect)
+        if path == ["PhantomData"]:
+            return ("p", "()", Ty("unit"))
+        if len(path) == 2 and path[1] == "SIZE" and path[0] in ("S", "Self"):
+            return ("p", self.size_term(), Ty("u64"))
+        if len(path) == 2 and path[1] == "SIZE" and path[0] in self.ctx.sizes:
+            return ("p", self.size_term(path[0]), Ty("u64"))
+        if len(path) == 2 and path[1] == "MAX" and path[0] in WIDTH:
+            ty = Ty(path[0])
+            return ("p", f"(BitVec.allOnes {ty.width()})", ty)
+        owner = self.impl if path[0] == "Self" else path[0]
+        if len(path) == 2 and owner in FLAG_TYPES and (owner, path[1]) in self.ctx.flags:
+            ty = nominal(owner)
+            return ("p", self.lit(self.ctx.flags[(owner, path[1])], ty), ty)
+        if len(path) == 2 and owner in ENUMS and (owner, path[1]) in self.ctx.enums:
+            ty = nominal(owner)
+            return ("p", self.lit(self.ctx.enums[(owner, path[1])], ty), ty)
+        if path[-1] in self.ctx.consts:
+            term, ty = self.ctx.consts[path[-1]]
+            return ("p", term, ty)
+        if expect is not None and expect.kind == "result" and len(path) == 1 and path[0][0].isupper():
+            raise ValueError(f"bare error value {path[0]} outside Err(..)")
+        raise ValueError(f"unknown path {'::'.join(path)}")
+
+    def struct_lit(self, e, env, expect):
+        _, path, fields = e
+        name = self.impl if path[-1] == "Self" else path[-1]
+        fields = [(f, x) for f, x in fields if f not in IGNORED_FIELDS]
+        if name in NEWTYPES:
+            if len(fields) != 1:
+                raise ValueError(f"struct literal of {name} with {len(fields)} fields")
+            kk, t, ty = self.ex(fields[0][1], env, Ty(NEWTYPES[name]))
+            if not ty.same(Ty(NEWTYPES[name])):
+                raise ValueError(f"field of {name} has type {ty}")
+            return (kk, t, nominal(name))
+        if name in STRUCTS:
+            decl = STRUCTS[name]
+            got = dict(fields)
+            if set(got) != {n for n, _ in decl}:
+                raise ValueError(f"fields of {name}: {sorted(got)}")
+            parts = []
+            for n, tn in decl:
+                p = self.ex(got[n], env, nominal(tn))
+                if not p[2].same(nominal(tn)):
+                    raise ValueError(f"field {n} of {name} has type {p[2]}")
+                parts.append(p)
+            ty = nominal(name)
+            return self.bind_all(parts, lambda xs: "(" + ", ".join(xs) + ")", ty)
+        raise ValueError(f"struct literal of {name} not in the subset")
 
     def lift1(self, kk, t, ty, f, rty):
         if kk == "p":
@@ -535,13 +1071,28 @@ class Emit:
             term = f"(R.bind ({t}) fun {v} => {term})"
         return ("m", term, rty)
 
+    def call_target(self, tg, parts, what):
+        ptys, rty = self.ctx.sigs[tg.lean]
+        if len(parts) != len(ptys):
+            raise ValueError(f"{what}: {len(parts)} arguments for {len(ptys)} parameters")
+        for p, t in zip(parts, ptys):
+            if not p[2].same(t):
+                raise ValueError(f"{what}: argument type {p[2]} for parameter {t}")
+        self.deps.add(tg.lean)
+        extra = self.callee_size(tg)
+        return self.bind_all(parts, lambda xs: f"({tg.lean} cfg " + " ".join(extra + xs) + ")", rty, impure_result=True)
+
+    OPNAME = {"+": "add", "-": "sub", "*": "mul"}
+
     def binop(self, e, env, expect):
         _, op, l, r = e
         if op in ("<<", ">>"):
             lp = self.ex(l, env, expect)
             lty = lp[2]
+            if not lty.is_int():
+                raise ValueError(f"shift of {lty}")
             if r[0] == "num":
-                if r[1] >= WIDTH[lty.kind]:
+                if r[1] >= lty.width():
                     raise ValueError("literal shift amount not below the width")
                 amt = ("p", str(r[1]), Ty("u8"))
                 if op == "<<":
@@ -550,29 +1101,56 @@ class Emit:
                     f = lambda xs: f"(({xs[0]}).sshiftRight {xs[1]})"
                 else:
                     f = lambda xs: f"({xs[0]} >>> {xs[1]})"
-                return self.bind_all([lp, amt], f, lty)
+                return self.bind_all([lp, amt], f, Ty(lty.kind))
             amt = self.ex(r, env)
             if lty.kind.startswith("i"):
                 raise ValueError("signed shift by a non-literal amount not in the subset")
             fn = "Rust.shl" if op == "<<" else "Rust.shr"
-            return self.bind_all([lp, amt], lambda xs: f"({fn} cfg {xs[0]} {xs[1]})", lty, impure_result=True)
+            return self.bind_all([lp, amt], lambda xs: f"({fn} cfg {xs[0]} {xs[1]})", Ty(lty.kind), impure_result=True)
+        if op in ("&&", "||"):
+            lp = self.ex(l, env, Ty("bool"))
+            rp = self.ex(r, env, Ty("bool"))
+            if rp[0] != "p":
+                # short-circuit: the right operand is evaluated only when needed
+                v = self.fresh()
+                rt = rp[1]
+                if op == "&&":
+                    body = lambda x: f"(bif {x} then {rt} else R.ok false)"
+                else:
+                    body = lambda x: f"(bif {x} then R.ok true else {rt})"
+                if lp[0] == "p":
+                    return ("m", body(lp[1]), Ty("bool"))
+                return ("m", f"(R.bind ({lp[1]}) fun {v} => {body(v)})", Ty("bool"))
+            return self.bind_all([lp, rp], lambda xs: f"({xs[0]} {op} {xs[1]})", Ty("bool"))
         # operand types: infer the non-literal side first
+        cmp_ops = ("==", "!=", "<", "<=", ">", ">=")
         if l[0] == "num" and not l[2]:
-            rp = self.ex(r, env, expect)
+            rp = self.ex(r, env, expect if op not in cmp_ops else None)
             lp = self.ex(l, env, rp[2])
         else:
-            lp = self.ex(l, env, expect if op not in ("==", "!=", "<", "<=", ">", ">=") else None)
-            rp = self.ex(r, env, lp[2])
+            lp = self.ex(l, env, expect if op not in cmp_ops else None)
+            rp = self.ex(r, env, lp[2] if not lp[2].nom or op in cmp_ops or lp[2].nom in FLAG_TYPES else None)
         ty = lp[2]
-        if rp[2] != ty:
+        # operator traits of nominal types
+        if ty.nom and ty.nom not in FLAG_TYPES and op in self.OPNAME:
+            rn = rp[2].nom or rp[2].kind
+            key = f"{self.OPNAME[op]}_{rn}"
+            tg = self.ctx.lookup(ty.nom, key)
+            if tg is None:
+                raise ValueError(f"operator {op} on {ty} with {rp[2]}: no translated impl")
+            return self.call_target(tg, [lp, rp], f"{ty.nom} {op}")
+        if not rp[2].same(ty):
             raise ValueError(f"operand types differ: {ty} {op} {rp[2]}")
         if op in ("==", "!="):
             f = (lambda xs: f"({xs[0]} == {xs[1]})") if op == "==" else (lambda xs: f"({xs[0]} != {xs[1]})")
             return self.bind_all([lp, rp], f, Ty("bool"))
-        if op in ("<", "<=", ">", ">="):
+        if op in cmp_ops:
+            if not ty.is_int():
+                raise ValueError(f"comparison of {ty}")
             if ty.kind.startswith("i"):
-                raise ValueError("signed comparison not in the subset")
-            table = {"<": "BitVec.ult {0} {1}", "<=": "BitVec.ule {0} {1}", ">": "BitVec.ult {1} {0}", ">=": "BitVec.ule {1} {0}"}
+                table = {"<": "BitVec.slt {0} {1}", "<=": "BitVec.sle {0} {1}", ">": "BitVec.slt {1} {0}", ">=": "BitVec.sle {1} {0}"}
+            else:
+                table = {"<": "BitVec.ult {0} {1}", "<=": "BitVec.ule {0} {1}", ">": "BitVec.ult {1} {0}", ">=": "BitVec.ule {1} {0}"}
             return self.bind_all([lp, rp], lambda xs: "(" + table[op].format(xs[0], xs[1]) + ")", Ty("bool"))
         if op in ("&", "|", "^"):
             if ty.kind == "bool":
@@ -580,8 +1158,10 @@ class Emit:
             else:
                 sym = {"&": "&&&", "|": "|||", "^": "^^^"}[op]
             return self.bind_all([lp, rp], lambda xs: f"({xs[0]} {sym} {xs[1]})", ty)
-        if op in ("&&", "||"):
-            return self.bind_all([lp, rp], lambda xs: f"({xs[0]} {op} {xs[1]})", Ty("bool"))
+        if not ty.is_int() or ty.nom:
+            raise ValueError(f"arithmetic on {ty}")
+        if ty.kind.startswith("i"):
+            raise ValueError("signed arithmetic not in the subset")
         if op in ("+", "-", "*"):
             fn = {"+": "Rust.add", "-": "Rust.sub", "*": "Rust.mul"}[op]
             return self.bind_all([lp, rp], lambda xs: f"({fn} cfg {xs[0]} {xs[1]})", ty, impure_result=True)
@@ -602,112 +1182,219 @@ class Emit:
             if expect is None or expect.kind != "result":
                 raise ValueError("cannot type `Err(..)`")
             return ("p", "(Except.error ())", expect)
-        if len(path) == 1 and (path[0] in NEWTYPES or path[0] == "Self"):   # tuple-struct constructor: identity
-            return self.ex(args[0], env, Ty(NEWTYPES[self.impl if path[0] == "Self" else path[0]]))
+        if len(path) == 1 and (path[0] in NEWTYPES or path[0] == "Self") and (path[0] != "Self" or self.impl in NEWTYPES):
+            nt = self.impl if path[0] == "Self" else path[0]     # tuple-struct constructor: identity
+            kk, t, ty = self.ex(args[0], env, Ty(NEWTYPES[nt]))
+            if not ty.same(Ty(NEWTYPES[nt])):
+                raise ValueError(f"{nt}(..) applied to {ty}")
+            return (kk, t, nominal(nt))
         owner = None
         if len(path) == 2:
             owner = self.impl if path[0] == "Self" else path[0]
         if name == "new_unsafe" and owner in ("VirtAddr", "PhysAddr"):
-            return self.ex(args[0], env, Ty("u64"))
-        key = (owner, name)
-        if key not in self.sigs:
+            kk, t, ty = self.ex(args[0], env, Ty("u64"))
+            return (kk, t, nominal(owner))
+        if name == "try_from" and owner in ("u64", "usize"):
+            a = self.ex(args[0], env)
+            if not a[2].is_int() or a[2].width() != 64:
+                raise ValueError("try_from between integers of different width not in the subset")
+            return self.bind_all([a], lambda xs: f"(Except.ok {xs[0]})", Ty("result", Ty(owner)))
+        if path == ["Step", "steps_between"]:
+            # core's `Step for uN`: the exact distance when start <= end (it always fits `usize` here)
+            a, b = self.ex(args[0], env), self.ex(args[1], env)
+            if not a[2].is_int() or a[2].nom or not b[2].same(a[2]) or a[2].width() > 64 or a[2].kind.startswith("i"):
+                raise ValueError("Step::steps_between on a non-integer")
+            ext = (lambda x: x) if a[2].width() == 64 else (lambda x: f"(({x}).setWidth 64)")
+            rty = Ty("tuple", [Ty("usize"), Ty("option", Ty("usize"))])
+            return self.bind_all([a, b], lambda xs: f"(bif BitVec.ule {xs[0]} {xs[1]} then ({ext('(' + xs[1] + ' - ' + xs[0] + ')')}, some {ext('(' + xs[1] + ' - ' + xs[0] + ')')}) else (0x0#64, none))", rty)
+        if name == "from" and owner in WIDTH:
+            a = self.ex(args[0], env)
+            to = Ty(owner)
+            if not a[2].is_int() or a[2].width() > to.width() or a[2].kind.startswith("i"):
+                raise ValueError(f"{owner}::from({a[2]})")
+            if a[2].width() == to.width():
+                return (a[0], a[1], to)
+            return self.lift1(a[0], a[1], a[2], lambda x: f"(({x}).setWidth {to.width()})", to)
+        if name == "from_bits_truncate" and owner in FLAG_TYPES:
+            ty = nominal(owner)
+            a = self.ex(args[0], env, Ty(ty.kind))
+            allb = self.lit(self.ctx.flag_all[owner], ty)
+            return self.lift1(a[0], a[1], a[2], lambda x: f"({x} &&& {allb})", ty)
+        if name == "empty" and owner in FLAG_TYPES:
+            ty = nominal(owner)
+            return ("p", self.lit(0, ty), ty)
+        if name == "all" and owner in FLAG_TYPES:
+            ty = nominal(owner)
+            return ("p", self.lit(self.ctx.flag_all[owner], ty), ty)
+        tg = self.ctx.lookup(owner, name)
+        if tg is None:
             raise ValueError(f"call of {'::'.join(path)}: not a translated function")
-        ptys, rty = self.sigs[key]
+        ptys, _ = self.ctx.sigs[tg.lean]
         parts = [self.ex(a, env, t) for a, t in zip(args, ptys)]
-        for p, t in zip(parts, ptys):
-            if p[2] != t:
-                raise ValueError(f"argument type {p[2]} for parameter {t} of {name}")
-        self.deps.add(key)
-        return self.bind_all(parts, lambda xs: f"({lname(owner, name)} cfg " + " ".join(xs) + ")", rty, impure_result=True)
+        return self.call_target(tg, parts, "::".join(path))
 
     def mcall(self, e, env, expect):
         _, recv, name, args = e
-        if name in ("into", "as_u64", "clone"):
-            return self.ex(recv, env, expect)
+        if name in ("into", "clone"):
+            rp = self.ex(recv, env, expect)
+            if name == "into" and expect is not None and expect.is_int() and rp[2].is_int() and rp[2].width() < expect.width():
+                w = expect.width()
+                return self.lift1(rp[0], rp[1], rp[2], lambda x: f"(({x}).setWidth {w})", Ty(expect.kind))
+            return rp
         rp = self.ex(recv, env)
         ty = rp[2]
-        if name in ("checked_add", "checked_sub"):
+        if ty.nom:
+            tg = self.ctx.lookup(ty.nom, name)
+            if tg is not None:
+                ptys, _ = self.ctx.sigs[tg.lean]
+                parts = [rp] + [self.ex(a, env, t) for a, t in zip(args, ptys[1:])]
+                if tg.mut_self:
+                    raise ValueError(f"`&mut self` method {name} in expression position")
+                return self.call_target(tg, parts, f"{ty.nom}::{name}")
+        if ty.nom in FLAG_TYPES:
+            if name == "bits":
+                return (rp[0], rp[1], Ty(ty.kind))
+            if name == "contains":
+                a = self.ex(args[0], env, ty)
+                return self.bind_all([rp, a], lambda xs: f"(({xs[0]} &&& {xs[1]}) == {xs[1]})", Ty("bool"))
+            if name == "intersects":
+                a = self.ex(args[0], env, ty)
+                return self.bind_all([rp, a], lambda xs: f"(({xs[0]} &&& {xs[1]}) != {self.lit(0, ty)})", Ty("bool"))
+            if name == "is_empty":
+                return self.bind_all([rp], lambda xs: f"({xs[0]} == {self.lit(0, ty)})", Ty("bool"))
+            if name == "union":
+                a = self.ex(args[0], env, ty)
+                return self.bind_all([rp, a], lambda xs: f"({xs[0]} ||| {xs[1]})", ty)
+        if name == "as_u64" and ty.nom in ("VirtAddr", "PhysAddr"):
+            tg = self.ctx.lookup(ty.nom, "as_u64")
+            if tg is None:
+                return (rp[0], rp[1], Ty("u64"))
+        if name in ("checked_add", "checked_sub", "checked_mul") and ty.is_int() and not ty.nom:
             a = self.ex(args[0], env, ty)
-            fn = "Rust.checkedAdd" if name == "checked_add" else "Rust.checkedSub"
+            fn = {"checked_add": "Rust.checkedAdd", "checked_sub": "Rust.checkedSub", "checked_mul": "Rust.checkedMul"}[name]
             return self.bind_all([rp, a], lambda xs: f"({fn} {xs[0]} {xs[1]})", Ty("option", ty))
-        if name == "is_power_of_two":
+        if name in ("wrapping_add", "wrapping_sub", "wrapping_mul") and ty.is_int() and not ty.nom:
+            a = self.ex(args[0], env, ty)
+            sym = {"wrapping_add": "+", "wrapping_sub": "-", "wrapping_mul": "*"}[name]
+            return self.bind_all([rp, a], lambda xs: f"({xs[0]} {sym} {xs[1]})", ty)
+        if name == "is_power_of_two" and ty.is_int():
             return self.bind_all([rp], lambda xs: f"(Rust.isPowerOfTwo {xs[0]})", Ty("bool"))
-        if name == "get_bits":
+        if name == "get_bits" and ty.is_int():
             rg = args[0]
             if rg[0] != "range":
                 raise ValueError("get_bits with a non-literal range")
-            lo, hi = rg[1], rg[2] if rg[2] is not None else WIDTH[ty.kind]
-            return self.bind_all([rp], lambda xs: f"(Rust.getBits {xs[0]} {lo} {hi})", ty)
-        if name == "unwrap":
-            if ty.kind != "option":
-                raise ValueError("unwrap on non-Option")
-            v = self.fresh()
-            return self.bind_all([rp], lambda xs: f"(Rust.unwrap {xs[0]})", ty.arg, impure_result=True)
-        if (self.impl, name) in self.sigs:
-            ptys, rty = self.sigs[(self.impl, name)]
-            parts = [rp] + [self.ex(a, env, t) for a, t in zip(args, ptys[1:])]
-            for p, t in zip(parts, ptys):
-                if p[2] != t:
-                    raise ValueError(f"argument type {p[2]} for parameter {t} of {name}")
-            self.deps.add((self.impl, name))
-            return self.bind_all(parts, lambda xs: f"({lname(self.impl, name)} cfg " + " ".join(xs) + ")", rty, impure_result=True)
-        raise ValueError(f"method {name} not in the subset")
+            lo, hi = rg[1], rg[2] if rg[2] is not None else ty.width()
+            if not (lo < hi <= ty.width()):
+                raise ValueError("get_bits range outside the word")
+            return self.bind_all([rp], lambda xs: f"(Rust.getBits {xs[0]} {lo} {hi})", Ty(ty.kind))
+        if name == "get_bit" and ty.is_int():
+            if args[0][0] != "num" or args[0][1] >= ty.width():
+                raise ValueError("get_bit with a non-literal index")
+            return self.bind_all([rp], lambda xs: f"(Rust.getBit {xs[0]} {args[0][1]})", Ty("bool"))
+        if name in ("unwrap", "expect"):
+            if ty.kind == "option":
+                return self.bind_all([rp], lambda xs: f"(Rust.unwrap {xs[0]})", ty.arg, impure_result=True)
+            if ty.kind == "result":
+                return self.bind_all([rp], lambda xs: f"(Rust.onRes {xs[0]} (fun v => R.ok v) R.panic)", ty.arg, impure_result=True)
+            raise ValueError("unwrap on non-Option")
+        if name == "ok" and ty.kind == "result":
+            return self.bind_all([rp], lambda xs: f"(Rust.onRes {xs[0]} (fun v => some v) none)", Ty("option", ty.arg))
+        if name == "unwrap_or" and ty.kind == "option":
+            a = self.ex(args[0], env, ty.arg)
+            return self.bind_all([rp, a], lambda xs: f"(Rust.onOpt {xs[0]} (fun v => v) {xs[1]})", ty.arg)
+        if name == "then" and ty.kind == "bool" and args and args[0][0] == "closure0":
+            inner_expect = expect.arg if expect is not None and expect.kind == "option" else None
+            a = self.ex(args[0][1], env, inner_expect)
+            rty = Ty("option", a[2])
+            yes = f"R.ok (some {a[1]})" if a[0] == "p" else f"(R.bind ({a[1]}) fun v => R.ok (some v))"
+            return self.bind_all([rp], lambda xs: f"(bif {xs[0]} then {yes} else R.ok none)", rty, impure_result=True)
+        if name == "is_some" and ty.kind == "option":
+            return self.bind_all([rp], lambda xs: f"(({xs[0]}).isSome)", Ty("bool"))
+        if name == "is_none" and ty.kind == "option":
+            return self.bind_all([rp], lambda xs: f"(!({xs[0]}).isSome)", Ty("bool"))
+        raise ValueError(f"method {name} on {ty} not in the subset")
 
-    # ---- blocks: statements + continuation, result type rty (the function's return type), term : R rty
+    # ---- blocks: statements + continuation; the term built has type R (function result)
+    def finish(self, kk, t, env):
+        """Value of the function: pair it with the final `self` for `&mut self` methods."""
+        if not self.mut_self:
+            return f"(R.ok {t})" if kk == "p" else t
+        s = env["self"][0]
+        if kk == "p":
+            return f"(R.ok ({t}, {s}))"
+        v = self.fresh()
+        return f"(R.bind ({t}) fun {v} => R.ok ({v}, {s}))"
+
     def ret(self, e, env, rty):
         kk, t, ty = self.ex(e, env, rty)
-        if ty != rty:
+        if not ty.same(rty):
             raise ValueError(f"returned {ty}, function returns {rty}")
-        return f"R.ok {t}" if kk == "p" else t
+        return self.finish(kk, t, env)
 
-    def block(self, stmts, env, rty, rest):
-        """rest: None, or a function env -> term for the statements following this block."""
+    def block(self, stmts, env, rest, valty=None):
+        """rest: None, or a function env -> term for the statements following this block.
+        valty: when set, the block is an expression of that type inside a larger term (no `self` pairing)."""
+        if valty is not None:
+            saved = (self.mut_self, self.ret_ty)
+            self.mut_self, self.ret_ty = False, valty
+            try:
+                return self.block(stmts, env, rest)
+            finally:
+                self.mut_self, self.ret_ty = saved
+        rty = self.ret_ty
+        if stmts and not getattr(stmts, "hoisted", False):
+            stmts = HoistedList(self.hoister.stmts(stmts))
         if not stmts:
             if rest is None:
+                if rty.kind == "unit":
+                    return self.finish("p", "()", env)
                 raise ValueError("block without value")
             return rest(env)
-        s, tail = stmts[0], stmts[1:]
-        cont = lambda env2: self.block(tail, env2, rty, rest)
+        s, tail = stmts[0], HoistedList(stmts[1:])
+        cont = lambda env2: self.block(tail, env2, rest)
         k = s[0]
         if k == "let":
-            _, name, e = s
+            _, name, e, dty = s
+            want = conv_ty(dty, self.impl) if dty else None
             if e[0] == "try":
                 kk, t, ty = self.ex(e[1], env)
                 v = name + "_" + str(self.n + 1)
                 self.n += 1
                 if ty.kind == "option" and rty.kind == "option":
-                    env2 = dict(env); env2[name] = (v, ty.arg)
-                    inner = f"Rust.onOpt {{0}} (fun {v} =>\n  {cont(env2)}) (R.ok none)"
+                    env2 = dict(env)
+                    env2[name] = (v, ty.arg)
+                    inner = f"Rust.onOpt {{0}} (fun {v} =>\n  {cont(env2)}) ({self.finish('p', 'none', env)})"
                     if kk == "p":
                         return "(" + inner.format(t) + ")"
                     w = self.fresh()
                     return f"(R.bind ({t}) fun {w} => " + inner.format(w) + ")"
                 raise ValueError("`?` outside Option-returning function")
-            kk, t, ty = self.ex(e, env)
+            kk, t, ty = self.ex(e, env, want)
+            if want is not None and not ty.same(want):
+                raise ValueError(f"let {name}: {want} = <{ty}>")
+            if want is not None and want.nom and not ty.nom:
+                ty = want
             v = name + "_" + str(self.n + 1)
             self.n += 1
-            env2 = dict(env); env2[name] = (v, ty)
+            env2 = dict(env)
+            env2[name] = (v, ty)
             if kk == "p":
                 return f"(let {v} := {t}\n  {cont(env2)})"
             return f"(R.bind ({t}) fun {v} =>\n  {cont(env2)})"
-        if k == "opassign":
-            _, lhs, op, rhs = s
-            if lhs[0] != "path" or len(lhs[1]) != 1:
-                raise ValueError("compound assignment to a non-variable")
-            name = lhs[1][0]
-            kk, t, ty = self.ex(("bin", op, lhs, rhs), env)
-            v = name + "_" + str(self.n + 1)
-            self.n += 1
-            env2 = dict(env); env2[name] = (v, ty)
-            if kk == "p":
-                return f"(let {v} := {t}\n  {cont(env2)})"
-            return f"(R.bind ({t}) fun {v} =>\n  {cont(env2)})"
+        if k == "assign":
+            return self.assign(s, env, cont)
         if k == "assert":
-            kk, t, ty = self.ex(s[1], env)
+            if s[2]:
+                # debug_assert!: checked only in builds with debug assertions = the overflow-check profile here
+                kk, t, ty = self.ex(s[1], env, Ty("bool"))
+                if kk != "p":
+                    raise ValueError("impure debug_assert condition")
+                return f"(bif cfg.ovf && !({t}) then R.panic else {cont(env)})"
+            kk, t, ty = self.ex(s[1], env, Ty("bool"))
             if kk != "p":
                 v = self.fresh()
-                return f"(R.bind ({t}) fun {v} => if {v} then {cont(env)} else R.panic)"
-            return f"(if {t} then {cont(env)} else R.panic)"
+                return f"(R.bind ({t}) fun {v} => bif {v} then {cont(env)} else R.panic)"
+            return f"(bif {t} then {cont(env)} else R.panic)"
         if k == "return":
             return self.ret(s[1], env, rty)
         if k == "tail":
@@ -715,33 +1402,179 @@ class Emit:
             if tail:
                 raise ValueError("statements after a tail expression")
             if e[0] in ("if", "iflet", "match", "block"):
-                return self.control(e, env, rty, None, value=True)
+                return self.control(e, env, rest, value=True)
+            if self.is_mut_call(e, env):
+                # `x.method(..)` of a translated `&mut self` method as the value of the block
+                def after(env2):
+                    vt, vty = self.last_call_value
+                    if rest is not None:
+                        return rest(env2)
+                    if not vty.same(rty):
+                        raise ValueError(f"returned {vty}, function returns {rty}")
+                    return self.finish("p", vt, env2)
+                return self.mut_call(e, env, after)
             if rest is not None:
                 raise ValueError("value in statement position")
             return self.ret(e, env, rty)
         if k == "expr;":
             e = s[1]
-            if e[0] == "mcall" and e[2] == "set_bits":
-                recv = e[1]
-                if recv[0] != "path" or len(recv[1]) != 1:
-                    raise ValueError("set_bits on a non-variable")
-                name = recv[1][0]
-                cur, ty = env[name]
-                rg = e[3][0]
-                lo, hi = rg[1], rg[2] if rg[2] is not None else WIDTH[ty.kind]
-                kk, t, _ = self.ex(e[3][1], env, ty)
-                if kk != "p":
-                    raise ValueError("impure set_bits value")
-                v = name + "_" + str(self.n + 1)
-                self.n += 1
-                env2 = dict(env); env2[name] = (v, ty)
-                return f"(R.bind (Rust.setBits {cur} {lo} {hi} {t}) fun {v} =>\n  {cont(env2)})"
+            if e[0] == "mcall" and e[2] in ("set_bits", "set_bit"):
+                return self.set_bits(e, env, cont)
+            if e[0] == "mcall":
+                return self.mut_call(e, env, cont)
             if e[0] in ("if", "iflet", "match", "block"):
-                return self.control(e, env, rty, cont, value=False)
+                return self.control(e, env, cont, value=False)
             raise ValueError(f"expression statement {e[0]} not in the subset")
         raise ValueError(f"statement {k} not in the subset")
 
-    def control(self, e, env, rty, cont, value):
+    def lvalue(self, lhs, env):
+        """-> (variable name, [field names])."""
+        fields = []
+        while lhs[0] in ("field", "paren"):
+            if lhs[0] == "field":
+                fields.insert(0, lhs[2])
+            lhs = lhs[1]
+        if lhs[0] != "path" or len(lhs[1]) != 1 or lhs[1][0] not in env:
+            raise ValueError("assignment to a non-variable")
+        return lhs[1][0], fields
+
+    def store(self, name, fields, newval, env):
+        """Lean term of the variable `name` after `name.fields = newval`, and its type."""
+        cur, ty = env[name]
+        if not fields:
+            return newval, ty
+        if len(fields) == 1:
+            f = fields[0]
+            if ty.nom in NEWTYPES and (f == 0 or f == NEWTYPE_FIELDS.get(ty.nom)):
+                return newval, ty
+            if ty.nom in STRUCTS:
+                names = [n for n, _ in STRUCTS[ty.nom]]
+                i = names.index(f)
+                comps = [newval if j == i else f"{cur}{field_path(len(names), j)}" for j in range(len(names))]
+                return "(" + ", ".join(comps) + ")", ty
+        raise ValueError(f"assignment to field path {fields} of {ty}")
+
+    def load_ty(self, name, fields, env):
+        cur, ty = env[name]
+        for f in fields:
+            if ty.nom in NEWTYPES and (f == 0 or f == NEWTYPE_FIELDS.get(ty.nom)):
+                ty = Ty(ty.kind) if ty.nom not in ("Page", "PhysFrame") else nominal("VirtAddr" if ty.nom == "Page" else "PhysAddr")
+            elif ty.nom in STRUCTS:
+                names = [n for n, _ in STRUCTS[ty.nom]]
+                ty = ty.arg[names.index(f)]
+            else:
+                raise ValueError(f"field {f} of {ty}")
+        return ty
+
+    def assign(self, s, env, cont):
+        _, lhs, op, rhs = s
+        name, fields = self.lvalue(lhs, env)
+        fty = self.load_ty(name, fields, env)
+        if op == "":
+            kk, t, ty = self.ex(rhs, env, fty)
+            if not ty.same(fty):
+                raise ValueError(f"assignment of {ty} to {fty}")
+        elif fty.nom and fty.nom not in FLAG_TYPES:
+            # `x += e` on a nominal type: the translated `*_assign` impl, which returns ((), x')
+            rp = self.ex(rhs, env)
+            rn = rp[2].nom or rp[2].kind
+            opn = {"+": "add_assign", "-": "sub_assign"}.get(op)
+            tg = self.ctx.lookup(fty.nom, f"{opn}_{rn}") if opn else None
+            if tg is None:
+                raise ValueError(f"operator {op}= on {fty}: no translated impl")
+            lp = self.ex(lhs, env)
+            kk, t, ty = self.call_target(tg, [lp, rp], f"{fty.nom} {op}=")
+            kk, t, ty = self.lift1(kk, t, ty, lambda x: f"{x}.2", fty)
+        else:
+            kk, t, ty = self.ex(("bin", op, lhs, rhs), env, fty)
+        v = name + "_" + str(self.n + 1)
+        self.n += 1
+        env2 = dict(env)
+        if kk == "p":
+            newterm, vty = self.store(name, fields, t, env)
+            env2[name] = (v, vty)
+            return f"(let {v} := {newterm}\n  {cont(env2)})"
+        w = self.fresh()
+        newterm, vty = self.store(name, fields, w, env)
+        env2[name] = (v, vty)
+        return f"(R.bind ({t}) fun {w} =>\n  let {v} := {newterm}\n  {cont(env2)})"
+
+    def set_bits(self, e, env, cont):
+        recv = e[1]
+        name, fields = self.lvalue(recv, env)
+        fty = self.load_ty(name, fields, env)
+        if not fty.is_int():
+            raise ValueError("set_bits on a non-integer")
+        cur = self.ex(recv, env)
+        if cur[0] != "p":
+            raise ValueError("impure set_bits receiver")
+        if e[2] == "set_bit":
+            idx = e[3][0]
+            if idx[0] != "num" or idx[1] >= fty.width():
+                raise ValueError("set_bit with a non-literal index")
+            kk, t, _ = self.ex(e[3][1], env, Ty("bool"))
+            if kk != "p":
+                raise ValueError("impure set_bit value")
+            newval = f"(Rust.setBit {cur[1]} {idx[1]} {t})"
+            v = name + "_" + str(self.n + 1)
+            self.n += 1
+            newterm, vty = self.store(name, fields, newval, env)
+            env2 = dict(env)
+            env2[name] = (v, vty)
+            return f"(let {v} := {newterm}\n  {cont(env2)})"
+        rg = e[3][0]
+        if rg[0] != "range":
+            raise ValueError("set_bits with a non-literal range")
+        lo, hi = rg[1], rg[2] if rg[2] is not None else fty.width()
+        if not (lo < hi <= fty.width()):
+            raise ValueError("set_bits range outside the word")
+        kk, t, vt = self.ex(e[3][1], env, Ty(fty.kind))
+        if not vt.same(Ty(fty.kind)):
+            raise ValueError(f"set_bits value of type {vt}")
+        w = self.fresh()
+        v = name + "_" + str(self.n + 1)
+        self.n += 1
+        newterm, vty = self.store(name, fields, w, env)
+        env2 = dict(env)
+        env2[name] = (v, vty)
+        inner = f"(R.bind (Rust.setBits {cur[1]} {lo} {hi} {{0}}) fun {w} =>\n  let {v} := {newterm}\n  {cont(env2)})"
+        if kk == "p":
+            return inner.format(t)
+        u = self.fresh()
+        return f"(R.bind ({t}) fun {u} => " + inner.format(u) + ")"
+
+    def mut_call(self, e, env, cont):
+        """`x.method(args);` for a translated `&mut self` method: rebinds `x`."""
+        _, recv, name, args = e
+        vname, fields = self.lvalue(recv, env)
+        fty = self.load_ty(vname, fields, env)
+        tg = self.ctx.lookup(fty.nom, name) if fty.nom else None
+        if tg is None or not tg.mut_self:
+            raise ValueError(f"statement call of {name} on {fty}: not a translated `&mut self` method")
+        ptys, _ = self.ctx.sigs[tg.lean]
+        parts = [self.ex(recv, env)] + [self.ex(a, env, t) for a, t in zip(args, ptys[1:])]
+        kk, t, ty = self.call_target(tg, parts, f"{fty.nom}::{name}")
+        w = self.fresh()
+        v = vname + "_" + str(self.n + 1)
+        self.n += 1
+        newterm, vty = self.store(vname, fields, f"{w}.2", env)
+        env2 = dict(env)
+        env2[vname] = (v, vty)
+        self.last_call_value = (f"{w}.1", ty.arg[0])
+        return f"(R.bind ({t}) fun {w} =>\n  let {v} := {newterm}\n  {cont(env2)})"
+
+    def is_mut_call(self, e, env):
+        if e[0] != "mcall":
+            return False
+        try:
+            vname, fields = self.lvalue(e[1], env)
+            fty = self.load_ty(vname, fields, env)
+        except ValueError:
+            return False
+        tg = self.ctx.lookup(fty.nom, e[2]) if fty.nom else None
+        return tg is not None and tg.mut_self
+
+    def control(self, e, env, cont, value):
         """if / if let / match / block, either as the value of the enclosing block (cont None) or as a statement
         followed by `cont` (the continuation is duplicated into every branch)."""
         rest = (lambda env2: cont(env2)) if cont is not None else None
@@ -749,20 +1582,25 @@ class Emit:
             raise ValueError("statement without continuation")
         k = e[0]
         if k == "block":
-            return self.block(e[1], dict(env), rty, rest)
+            return self.block(e[1], dict(env), rest)
         if k == "if":
-            kk, c, _ = self.ex(e[1], env)
-            a = self.block(e[2], dict(env), rty, rest)
+            kk, c, cty = self.ex(e[1], env, Ty("bool"))
+            if cty.kind != "bool":
+                raise ValueError("`if` condition is not a bool")
+            a = self.block(e[2], dict(env), rest)
             if e[3] is None:
                 if rest is None:
-                    raise ValueError("`if` without else as a value")
-                b = rest(env)
+                    if self.ret_ty.kind != "unit":
+                        raise ValueError("`if` without else as a value")
+                    b = self.finish("p", "()", env)
+                else:
+                    b = rest(env)
             else:
-                b = self.block(e[3], dict(env), rty, rest)
+                b = self.block(e[3], dict(env), rest)
             if kk == "p":
-                return f"(if {c} then {a} else {b})"
+                return f"(bif {c} then {a} else {b})"
             v = self.fresh()
-            return f"(R.bind ({c}) fun {v} => if {v} then {a} else {b})"
+            return f"(R.bind ({c}) fun {v} => bif {v} then {a} else {b})"
         if k == "iflet":
             _, pat, scrut, a, b = e
             kk, t, ty = self.ex(scrut, env)
@@ -770,9 +1608,10 @@ class Emit:
                 raise ValueError("if let pattern not in the subset")
             v = pat[2] + "_" + str(self.n + 1)
             self.n += 1
-            env2 = dict(env); env2[pat[2]] = (v, ty.arg)
-            ta = self.block(a, env2, rty, rest)
-            tb = self.block(b, dict(env), rty, rest)
+            env2 = dict(env)
+            env2[pat[2]] = (v, ty.arg)
+            ta = self.block(a, env2, rest)
+            tb = self.block(b, dict(env), rest)
             body = "Rust.onOpt {0} (fun " + v + " =>\n  " + ta + ")\n  " + tb
             if kk == "p":
                 return "(" + body.format(t) + ")"
@@ -782,26 +1621,38 @@ class Emit:
             _, scrut, arms = e
             kk, t, ty = self.ex(scrut, env)
             sv = self.fresh("scrut")
-            if ty.kind in WIDTH:
+            if ty.is_int():
                 out, default = [], None
                 for pat, body in arms:
                     if pat[0] == "plit":
-                        out.append((self.lit(pat[1], ty), self.block(body, dict(env), rty, rest)))
+                        out.append((self.lit(pat[1], ty), self.block(body, dict(env), rest)))
+                    elif pat[0] == "ppath" and ty.nom in ENUMS:
+                        owner = self.impl if pat[1][0] == "Self" else pat[1][0]
+                        if (owner, pat[1][-1]) not in self.ctx.enums:
+                            raise ValueError(f"unknown enum variant {'::'.join(pat[1])}")
+                        out.append((self.lit(self.ctx.enums[(owner, pat[1][-1])], ty), self.block(body, dict(env), rest)))
                     elif pat[0] == "pwild":
-                        default = self.block(body, dict(env), rty, rest) if body else rest(env)
+                        default = self.block(body, dict(env), rest)
                     else:
                         raise ValueError("match pattern not in the subset")
                 if default is None:
-                    raise ValueError("integer match without `_` arm")
+                    if ty.nom in ENUMS:
+                        variants = {v for (o, _), v in self.ctx.enums.items() if o == ty.nom}
+                        if {int(l.split('#')[0], 16) for l, _ in out} != variants:
+                            raise ValueError("enum match is not exhaustive")
+                        default = out[-1][1]        # exhaustive: the last arm is the default
+                        out = out[:-1]
+                    else:
+                        raise ValueError("integer match without `_` arm")
                 term = default
                 for litv, body in reversed(out):
-                    term = f"(if {sv} == {litv} then {body}\n  else {term})"
+                    term = f"(bif {sv} == {litv} then {body}\n  else {term})"
             elif ty.kind in ("option", "result"):
                 yes, no = None, None
                 for pat, body in arms:
                     if pat[0] == "pwild":
                         if no is None:
-                            no = self.block(body, dict(env), rty, rest)
+                            no = self.block(body, dict(env), rest)
                         continue
                     if pat[0] != "pctor" or pat[1] not in ("Some", "None", "Ok", "Err"):
                         raise ValueError("match pattern not in the subset")
@@ -814,10 +1665,10 @@ class Emit:
                             binder = pat[2] + "_" + str(self.n + 1)
                             self.n += 1
                             env2[pat[2]] = (binder, ty.arg)
-                        yes = f"(fun {binder} =>\n  {self.block(body, env2, rty, rest)})"
+                        yes = f"(fun {binder} =>\n  {self.block(body, env2, rest)})"
                     else:
                         if no is None:
-                            no = self.block(body, env2, rty, rest)
+                            no = self.block(body, env2, rest)
                 if yes is None or no is None:
                     raise ValueError("match on Option/Result needs both alternatives")
                 comb = "Rust.onOpt" if ty.kind == "option" else "Rust.onRes"
@@ -830,56 +1681,106 @@ class Emit:
         raise ValueError(k)
 
 
+# --------------------------------------------------------------------------- driver
+
+class Ctx:
+    def __init__(self):
+        self.sigs = {}      # lean name -> ([param Ty], ret Ty incl. self component)
+        self.by_key = {}    # (owner, key) -> target
+        self.consts, self.flags, self.enums, self.sizes, self.flag_all = {}, {}, {}, {}, {}
+
+    def lookup(self, owner, key):
+        return self.by_key.get((owner, key))
+
+
 def parse_params(params, impl):
-    out = []
-    for piece in [p.strip() for p in params.split(",") if p.strip()]:
+    out, mut_self = [], False
+    depth, cur, pieces = 0, "", []
+    for ch in params:
+        if ch in "<(":
+            depth += 1
+        elif ch in ">)":
+            depth -= 1
+        if ch == "," and depth == 0:
+            pieces.append(cur)
+            cur = ""
+        else:
+            cur += ch
+    pieces.append(cur)
+    for piece in [p.strip() for p in pieces if p.strip()]:
         if piece in ("self", "&self", "&mut self", "mut self"):
-            out.append(("self", Ty(NEWTYPES[impl])))
+            out.append(("self", nominal(impl)))
+            mut_self = mut_self or piece == "&mut self"
             continue
         name, ty = piece.split(":", 1)
         name = name.replace("mut ", "").strip()
         out.append((name, conv_ty(P(tokenize(ty)).ty(), impl)))
-    return out
+    return out, mut_self
 
 
 def generate(repo, outdir):
     srcs = {}
-    sigs, parsed = {}, []
-    for f, impl, fn in TARGETS:
-        if f not in srcs:
-            srcs[f] = open(os.path.join(repo, f)).read()
-        params, ret, body = find_fn(srcs[f], impl, fn)
-        ps = parse_params(params, impl)
-        rty = conv_ty(P(tokenize(ret)).ty(), impl) if ret else Ty("unit")
-        sigs[(impl, fn)] = ([t for _, t in ps], rty)
-        parsed.append((f, impl, fn, ps, rty, body))
-    # constants used by the functions
-    consts = {}
-    m = re.search(r"const\s+ADDRESS_SPACE_SIZE\s*:\s*u64\s*=\s*([^;]+);", srcs["src/addr.rs"])
+    ctx = Ctx()
+    ex = gen_consts.extract(repo)
+    for (tyname, cname), d in ex.defs.items():
+        if tyname in FLAG_TYPES and d.kind != "assoc":
+            ctx.flags[(tyname, cname)] = d.value
+            ctx.flag_all[tyname] = ctx.flag_all.get(tyname, 0) | d.value
+        if tyname in ENUMS:
+            ctx.enums[(tyname, cname)] = d.value
+        if cname == "SIZE" and tyname.startswith("Size"):
+            ctx.sizes[tyname] = d.value
+    parsed = []
+    for tg in TARGETS:
+        if tg.file not in srcs:
+            srcs[tg.file] = open(os.path.join(repo, tg.file)).read()
+        params, ret, body = find_fn(srcs[tg.file], tg.impl, tg.fn)
+        ps, mut_self = parse_params(params, tg.owner)
+        assoc = {}
+        if tg.impl and " for " in tg.impl:
+            # associated types of operator / iterator traits as declared in the impl
+            for (s, e) in find_impl_bodies(strip_comments(srcs[tg.file]), tg.impl):
+                for m in re.finditer(r"type\s+(\w+)\s*=\s*([^;]+);", srcs[tg.file][s:e]):
+                    assoc[m.group(1)] = conv_ty(P(tokenize(m.group(2))).ty(), tg.owner)
+        rty = conv_ty(P(tokenize(ret)).ty(), tg.owner, assoc) if ret else Ty("unit")
+        tg.mut_self = mut_self
+        full = Ty("tuple", [rty, nominal(tg.owner)]) if mut_self else rty
+        ctx.sigs[tg.lean] = ([t for _, t in ps], full)
+        if (tg.owner, tg.key) in ctx.by_key:
+            raise ValueError(f"duplicate target key {(tg.owner, tg.key)}")
+        ctx.by_key[(tg.owner, tg.key)] = tg
+        parsed.append((tg, ps, rty, full, body))
+    m = re.search(r"const\s+ADDRESS_SPACE_SIZE\s*:\s*u64\s*=\s*([^;]+);", srcs[ADDR])
     if not m:
         raise ValueError("ADDRESS_SPACE_SIZE not found")
-    consts["ADDRESS_SPACE_SIZE"] = (hex(int(m.group(1).replace("_", ""), 0)) + "#64", Ty("u64"))
-    m = re.search(r"const\s+ENTRY_COUNT\s*:\s*usize\s*=\s*([^;]+);", srcs["src/structures/paging/page_table.rs"])
+    ctx.consts["ADDRESS_SPACE_SIZE"] = (hex(int(m.group(1).replace("_", ""), 0)) + "#64", Ty("u64"))
+    m = re.search(r"const\s+ENTRY_COUNT\s*:\s*usize\s*=\s*([^;]+);", srcs[PT])
     if not m:
         raise ValueError("ENTRY_COUNT not found")
-    consts["ENTRY_COUNT"] = (hex(int(m.group(1).replace("_", ""), 0)) + "#64", Ty("usize"))
+    ctx.consts["ENTRY_COUNT"] = (hex(int(m.group(1).replace("_", ""), 0)) + "#64", Ty("usize"))
     lines = ["/-", "GENERATED by translator/gen_fns.py from the Rust source of /repo — do not edit. Rewritten on every run.",
-             "One definition per translated function, over the fixed-width semantics of `X86Model/Base/Rust.lean`.", "-/",
+             "One definition per translated function, over the fixed-width semantics of `X86Model/Base/Rust.lean`.",
+             "A type parameter `S: PageSize` is the explicit argument `S_SIZE` (= `S::SIZE`).", "-/",
              "import X86Model.Base.Rust", "", "set_option linter.unusedVariables false", "", "namespace X86.Generated.Src", "open X86", ""]
     defs = {}
-    for f, impl, fn, ps, rty, body in parsed:
-        em = Emit(impl, sigs, consts)
+    for tg, ps, rty, full, body in parsed:
+        em = Emit(tg, ctx)
+        em.mut_self, em.ret_ty = tg.mut_self, rty
         env = {}
-        binders = []
+        binders = ["(S_SIZE : BitVec 64)"] if tg.generic else []
         for name, ty in ps:
             env[name] = (name + "_0", ty)
             binders.append(f"({name}_0 : {ty.lean()})")
-        stmts = P(tokenize(body)).block()
-        term = em.block(stmts, env, rty, None)
-        text = [f"/-- `{(impl + '::') if impl else ''}{fn}` ({f}) -/",
-                f"def {lname(impl, fn)} (cfg : Cfg) " + " ".join(binders) + f" : R ({rty.lean()}) :=",
+        try:
+            stmts = P(tokenize(body)).block()
+            term = em.block(stmts, env, None)
+        except ValueError as exn:
+            raise ValueError(f"{tg.file}: {tg.impl or ''} fn {tg.fn}: {exn}") from None
+        head = f"`{tg.impl + ' :: ' if tg.impl else ''}{tg.fn}` ({tg.file})"
+        text = [f"/-- {head} -/",
+                f"def {tg.lean} (cfg : Cfg) " + " ".join(binders) + f" : R ({full.lean()}) :=",
                 "  " + term, ""]
-        defs[(impl, fn)] = (text, em.deps)
+        defs[tg.lean] = (text, em.deps)
     # callees first (the source has no recursion among the translated functions; a cycle raises)
     done, order = set(), []
 
@@ -888,16 +1789,20 @@ def generate(repo, outdir):
             return
         if key in stack:
             raise ValueError(f"recursion among translated functions at {key}")
-        for d in sorted(defs[key][1], key=str):
+        for d in sorted(defs[key][1]):
             visit(d, stack + [key])
         done.add(key)
         order.append(key)
 
-    for f, impl, fn, *_ in parsed:
-        visit((impl, fn), [])
+    for tg, *_ in parsed:
+        visit(tg.lean, [])
     for key in order:
         lines += defs[key][0]
-    lines += ["end X86.Generated.Src", ""]
+    lines += ["/-- Unfold every translated function (used by the tie proofs, `Properties/SrcTie.lean`). -/",
+              "macro \"src_unfold\" : tactic => `(tactic| simp only [" + ", ".join(order) + "] at *)", "",
+              "/-- Names of the translated functions (evidence). -/",
+              "def translated : List String := [" + ", ".join('"' + k + '"' for k in order) + "]", "",
+              "end X86.Generated.Src", ""]
     path = os.path.join(outdir, "SrcFns.lean")
     write_if_changed(path, "\n".join(lines))
     return [path]
